@@ -142,6 +142,12 @@ def refCall (env : Env) (t : Table) (h : Heap) (steps : List (String × Val)) (t
   { w := walk2 env t h steps 0 tgt, touched := walkTouched2 env t h steps 0 tgt,
     log := walkLog2 env t h steps tgt, key := walkKey2 env t h steps tgt }
 
+/-- the table after the registrations of a history (calls do not change it) -/
+def histTable : Table → List Event → Table
+  | t, [] => t
+  | t, .register c hn ex :: es => histTable (t.register c hn ex) es
+  | t, .glom _ _ :: es => histTable t es
+
 def refHistory (env : Env) (h : Heap) : Table → List Event → List RefCall
   | _, [] => []
   | t, .register c hn ex :: es => refHistory env h (t.register c hn ex) es
